@@ -115,6 +115,318 @@ def unit_helper(name: str, w: int) -> Dict[str, Any]:
     return finish_unit(_Unit(ex), extra)
 
 
+# ----------------------------------------------------------------------------- the segment list (ghost V)
+
+SEG_BOUND = 1 << 40  # [A] the segment array is an allocation: segment_count <= segment_capacity < 2^40 entries
+
+
+class SegModel:
+    """the link between the ghost valid-set V and the segment array: V is DEFINED as the union of the listed
+    ranges (H1: every listed range is inside V;  H2: every word of V is in some listed range, with a ghost
+    witness function), ranges are well formed (start <= end);  after mem_ensure_segments_sorted they are
+    pairwise disjoint and ordered."""
+
+    def __init__(self, nm: NativeModel):
+        self.nm = nm
+        self.wit = z3.Function('seg_witness', z3.BitVecSort(64), z3.BitVecSort(64))
+
+    @staticmethod
+    def inside(st: CState, k, a):
+        return z3.And(z3.ULE(z3.Select(st.M['seg_start'], k), a), z3.ULT(a, z3.Select(st.M['seg_end'], k)))
+
+    @staticmethod
+    def idx(st: CState, k):
+        return z3.And(k >= 0, k < st.M['f:segment_count'])
+
+    def H1(self, st: CState):
+        k, a = z3.BitVec('k_h1', 64), z3.BitVec('a_h1', 64)
+        return z3.ForAll([k, a], z3.Implies(z3.And(self.idx(st, k), self.inside(st, k, a)), z3.Select(self.nm.V, a)))
+
+    def H2(self, st: CState, wit=None):
+        a = z3.BitVec('a_h2', 64)
+        wit = self.wit if wit is None else wit
+        return z3.ForAll([a], z3.Implies(z3.Select(self.nm.V, a), z3.And(self.idx(st, wit(a)), self.inside(st, wit(a), a))))
+
+    def WF(self, st: CState):
+        k = z3.BitVec('k_wf', 64)
+        return z3.ForAll([k], z3.Implies(self.idx(st, k), z3.ULE(z3.Select(st.M['seg_start'], k), z3.Select(st.M['seg_end'], k))))
+
+    def disjoint(self, st: CState):
+        i, j = z3.BitVec('i_dj', 64), z3.BitVec('j_dj', 64)
+        return z3.ForAll([i, j], z3.Implies(z3.And(i >= 0, i < j, j < st.M['f:segment_count']), z3.ULE(z3.Select(st.M['seg_end'], i), z3.Select(st.M['seg_start'], j))))
+
+    def assume_defined(self, st: CState) -> None:
+        st.assume(st.M['f:segment_count'] >= 0)
+        st.assume(st.M['f:segment_count'] <= z3.BitVecVal(SEG_BOUND, 64))
+        st.assume(st.M['f:segment_count'] <= st.M['f:segment_capacity'])  # Rep of the list (kept by Memory_add_segment)
+        for c in (self.H1(st), self.H2(st), self.WF(st)):
+            st.assume(c)
+
+    def ensure_sorted_contract(self, ex: CExec, st: CState, args, node):
+        """mem_ensure_segments_sorted (qsort [A] + the merge loop, verified in unit_validity('mem_ensure_segments_sorted')):
+        the list may be rewritten; V's definition, well-formedness are kept, the ranges are now disjoint and ordered"""
+        s = st.fork()
+        n = ex.fresh_counter = getattr(ex, 'fresh_counter', 0) + 1
+        s.M['seg_start'] = z3.Array(f'seg_start_sorted{n}', z3.BitVecSort(64), z3.BitVecSort(64))
+        s.M['seg_end'] = z3.Array(f'seg_end_sorted{n}', z3.BitVecSort(64), z3.BitVecSort(64))
+        s.M['f:segment_count'] = z3.BitVec(f'segment_count_sorted{n}', 64)
+        s.M['f:segments_sorted'] = i32(1)
+        wit2 = z3.Function(f'seg_witness_sorted{n}', z3.BitVecSort(64), z3.BitVecSort(64))
+        s.ghost['seg_wit'] = wit2
+        s.assume(s.M['f:segment_count'] >= 0)
+        s.assume(s.M['f:segment_count'] <= st.M['f:segment_count'])
+        for c in (self.H1(s), self.H2(s, wit2), self.WF(s), self.disjoint(s)):
+            s.assume(c)
+        yield (s, None)
+
+
+def _loop_paths(ex: CExec, st0: CState, head: str, inv, havoc, tag: str, extra: List[Obl]):
+    """Floyd/Hoare for one loop cut at its head label: returns the list of (state, return value) of every path
+    that returns (before the loop, from an arbitrary iteration); emits invariant init / preservation obligations."""
+    rets = []
+    for i, (s, where) in enumerate(ex.run(st0, 0, stop={head})):
+        if where[0] == 'return':
+            rets.append((s, where[1], f'{tag}:before_loop.path{i}'))
+        else:
+            for nm_, c in inv(s):
+                extra.append(Obl(f'{tag}:loop.invariant_holds_on_entry.{nm_}.path{i}', list(s.pc), c))
+    sh = st0.fork()
+    havoc(sh)
+    for nm_, c in inv(sh):
+        sh.assume(c)
+    extra.append(Obl(f'{tag}:loop.cover.invariant_satisfiable', list(sh.pc), None, 'cover'))
+    for i, (s, where) in enumerate(ex.run(sh, head, stop={head})):
+        if where[0] == 'return':
+            rets.append((s, where[1], f'{tag}:from_an_iteration.path{i}'))
+        else:
+            for nm_, c in inv(s):
+                extra.append(Obl(f'{tag}:loop.invariant_preserved.{nm_}.path{i}', list(s.pc), c))
+    return rets
+
+
+def unit_validity(name: str) -> Dict[str, Any]:
+    """flat_seg_contains, word_is_valid, page_compute_validity against the definition of the ghost valid-set V
+    (loop invariants over the segment array; width-independent)"""
+    fns = load_functions()
+    if name not in fns:
+        raise Undecided(f'function {name} not found in _fjcore.c')
+    nm = NativeModel(64)
+    sm = SegModel(nm)
+    ex = CExec(Linear(fns[name]), name=name)
+    ex.contracts['mem_ensure_segments_sorted'] = sm.ensure_sorted_contract
+    st = nm.st0.fork()
+    sm.assume_defined(st)
+    a = z3.BitVec('arg_word_address', 64)
+    extra: List[Obl] = [Obl(f'{name}:cover.requires', list(st.pc), None, 'cover')]
+    heads = [lab for lab in ex.lin.labels if lab.endswith('.head')]
+    if len(heads) != 1:
+        raise Undecided(f'{name}: expected exactly one loop, found {len(heads)}')
+    k = z3.BitVec('k_inv', 64)
+    if name == 'flat_seg_contains':
+        st.vars['m'], st.vars['word_address'] = Ptr('mem'), a
+
+        def inv(s):
+            seg = s.vars['seg']
+            yield ('index_in_range', z3.And(seg >= 0, seg <= s.M['f:segment_count']))
+            yield ('no_earlier_range_contains_the_word', z3.ForAll([k], z3.Implies(z3.And(k >= 0, k < seg), z3.Not(sm.inside(s, k, a)))))
+
+        def havoc(s):
+            s.vars['seg'] = z3.BitVec('seg_any', 64)
+
+        for s, v, tag in _loop_paths(ex, st, heads[0], inv, havoc, name, extra):
+            extra.append(Obl(f'{tag}.returns_membership_in_V', list(s.pc), (v != 0) == z3.Select(nm.V, a)))
+            extra.append(Obl(f'{tag}.returns_0_or_1', list(s.pc), z3.Or(v == 0, v == 1)))
+            extra.append(Obl(f'{tag}.cover', list(s.pc), None, 'cover'))
+    elif name == 'word_is_valid':
+        st.vars['m'], st.vars['word_address'] = Ptr('mem'), a
+
+        def inv(s):
+            lo, hi, n = s.vars['lo'], s.vars['hi'], s.M['f:segment_count']
+            yield ('bounds', z3.And(lo >= 0, hi < n, lo <= hi + 1, hi >= -1))
+            yield ('ranges_left_of_lo_end_before_the_word', z3.ForAll([k], z3.Implies(z3.And(k >= 0, k < lo), z3.ULE(z3.Select(s.M['seg_end'], k), a))))
+            yield ('ranges_right_of_hi_start_after_the_word', z3.ForAll([k], z3.Implies(z3.And(k > hi, k < n), z3.ULT(a, z3.Select(s.M['seg_start'], k)))))
+
+        def havoc(s):
+            s.vars['lo'], s.vars['hi'] = z3.BitVec('lo_any', 64), z3.BitVec('hi_any', 64)
+
+        # the loop starts after the call of mem_ensure_segments_sorted: take that state as the loop's context
+        pre = [s for s, w_ in ex.run(st, 0, stop={heads[0]}) if w_[0] == 'label']
+        if len(pre) != 1:
+            raise Undecided('word_is_valid: expected one path to the loop')
+        ctx = pre[0]
+        for nm_, c in inv(ctx):
+            extra.append(Obl(f'{name}:loop.invariant_holds_on_entry.{nm_}', list(ctx.pc), c))
+        sh = ctx.fork()
+        havoc(sh)
+        for nm_, c in inv(sh):
+            sh.assume(c)
+        extra.append(Obl(f'{name}:loop.cover.invariant_satisfiable', list(sh.pc), None, 'cover'))
+        for i, (s, where) in enumerate(ex.run(sh, heads[0], stop={heads[0]})):
+            tag = f'{name}:from_an_iteration.path{i}'
+            if where[0] == 'return':
+                v = where[1]
+                extra.append(Obl(f'{tag}.returns_membership_in_V', list(s.pc), (v != 0) == z3.Select(nm.V, a)))
+                extra.append(Obl(f'{tag}.returns_0_or_1', list(s.pc), z3.Or(v == 0, v == 1)))
+                extra.append(Obl(f'{tag}.cover', list(s.pc), None, 'cover'))
+            else:
+                for nm_, c in inv(s):
+                    extra.append(Obl(f'{name}:loop.invariant_preserved.{nm_}.path{i}', list(s.pc), c))
+    elif name == 'page_compute_validity':
+        p = z3.BitVec('arg_page_index', 64)
+        st.assume(z3.ULT(p, u64(1 << 50)))
+        st.assume(z3.Select(st.M['pg_exists'], p))
+        st.vars['m'], st.vars['page_index'], st.vars['page'] = Ptr('mem'), p, Ptr('page', p)
+        o = z3.BitVec('o_pcv', 64)
+
+        def sound(s):
+            vs, ve = z3.Select(s.M['pg_valid_start'], p), z3.Select(s.M['pg_valid_end'], p)
+            return z3.And(z3.ULE(ve, u64(PAGE_WORDS)), z3.ForAll([o], z3.Implies(z3.And(z3.ULE(vs, o), z3.ULT(o, ve)), z3.Select(nm.V, (p << u64(PAGE_BITS)) + o))))
+
+        pre = [s for s, w_ in ex.run(st, 0, stop={heads[0]}) if w_[0] == 'label']
+        if len(pre) != 1:
+            raise Undecided('page_compute_validity: expected one path to the loop')
+        ctx = pre[0]
+
+        def inv(s):
+            i = s.vars['i']
+            yield ('index_in_range', z3.And(i >= 0, i <= s.M['f:segment_count']))
+            yield ('fast_range_still_empty', z3.And(z3.Select(s.M['pg_valid_start'], p) == 0, z3.Select(s.M['pg_valid_end'], p) == 0))
+
+        for nm_, c in inv(ctx):
+            extra.append(Obl(f'{name}:loop.invariant_holds_on_entry.{nm_}', list(ctx.pc), c))
+        sh = ctx.fork()
+        sh.vars['i'] = z3.BitVec('i_any', 64)
+        for nm_, c in inv(sh):
+            sh.assume(c)
+        extra.append(Obl(f'{name}:loop.cover.invariant_satisfiable', list(sh.pc), None, 'cover'))
+        for i_, (s, where) in enumerate(ex.run(sh, heads[0], stop={heads[0]})):
+            tag = f'{name}:from_an_iteration.path{i_}'
+            if where[0] == 'return':
+                extra.append(Obl(f'{tag}.fast_valid_range_is_inside_the_page_and_inside_V', list(s.pc), sound(s)))
+                extra.append(Obl(f'{tag}.only_this_page_record_changes', list(s.pc), z3.And(*[s.M[f] is ctx.M[f] or s.M[f] == ctx.M[f] for f in ('flat', 'pg_words', 'pg_exists')])))
+                extra.append(Obl(f'{tag}.cover', list(s.pc), None, 'cover'))
+            else:
+                for nm_, c in inv(s):
+                    extra.append(Obl(f'{name}:loop.invariant_preserved.{nm_}.path{i_}', list(s.pc), c))
+    elif name == 'mem_ensure_segments_sorted':
+        st.vars['m'] = Ptr('mem')
+        n0 = st.M['f:segment_count']
+        BV = z3.BitVecSort(64)
+        S0, E0 = z3.Array('seg_start_qsorted', BV, BV), z3.Array('seg_end_qsorted', BV, BV)
+        w0 = z3.Function('seg_witness_qsorted', BV, BV)
+        x, j = z3.BitVec('x_es', 64), z3.BitVec('j_es', 64)
+
+        def in0(jj, xx):
+            return z3.And(z3.ULE(z3.Select(S0, jj), xx), z3.ULT(xx, z3.Select(E0, jj)))
+
+        def qsort(e, s0, args, node):
+            """[A] qsort with segment_compare: a permutation of the entries ordered by start - so every entry is
+            still an original range (inside V, well formed) and every word of V is still in some entry"""
+            s = s0.fork()
+            s.M['seg_start'], s.M['seg_end'] = S0, E0
+            i2 = z3.BitVec('i_sorted', 64)
+            for tagq, c in (('q:inside_V', z3.ForAll([j, x], z3.Implies(z3.And(j >= 0, j < n0, in0(j, x)), z3.Select(nm.V, x)))),
+                            ('q:covers_V', z3.ForAll([x], z3.Implies(z3.Select(nm.V, x), z3.And(w0(x) >= 0, w0(x) < n0, in0(w0(x), x))))),
+                            ('q:well_formed', z3.ForAll([j], z3.Implies(z3.And(j >= 0, j < n0), z3.ULE(z3.Select(S0, j), z3.Select(E0, j))))),
+                            ('q:sorted', z3.ForAll([i2, j], z3.Implies(z3.And(i2 >= 0, i2 < j, j < n0), z3.ULE(z3.Select(S0, i2), z3.Select(S0, j)))))):
+                s.assume(c)
+                tags[c.get_id()] = tagq
+            s.ghost['qsorted'] = True
+            yield (s, None)
+
+        ex.contracts['qsort'] = qsort
+        g_any = z3.Array('ghost_merged_into', BV, BV)
+        tags: Dict[int, str] = {}
+        # which quantified hypotheses each invariant clause's preservation argument uses (the others are hidden from
+        # the solver: smaller queries are the stable ones); ground hypotheses are always kept
+        NEEDS = {
+            'indices': (),
+            'merged_prefix_is_disjoint_and_ordered': ('merged_prefix_is_disjoint_and_ordered', 'merged_prefix_is_well_formed', 'rest_is_untouched'),
+            'merged_prefix_is_well_formed': ('merged_prefix_is_well_formed', 'rest_is_untouched', 'q:well_formed'),
+            'merged_prefix_is_inside_V': ('merged_prefix_is_inside_V', 'rest_is_untouched', 'q:inside_V', 'last_range_starts_before_the_rest'),
+            'rest_is_untouched': ('rest_is_untouched',),
+            'last_range_starts_before_the_rest': ('rest_is_untouched', 'last_range_starts_before_the_rest', 'q:sorted'),
+            'processed_ranges_are_covered_by_the_prefix': ('processed_ranges_are_covered_by_the_prefix', 'rest_is_untouched', 'last_range_starts_before_the_rest', 'q:well_formed'),
+            'post:sorted_flag_set': (),
+            'post:count_does_not_grow': (),
+            'post:ranges_are_disjoint_and_ordered': ('merged_prefix_is_disjoint_and_ordered',),
+            'post:ranges_well_formed': ('merged_prefix_is_well_formed',),
+            'post:every_range_is_inside_V': ('merged_prefix_is_inside_V',),
+            'post:every_word_of_V_is_in_a_range': ('processed_ranges_are_covered_by_the_prefix', 'q:covers_V'),
+        }
+
+        def hyps_for(s, clause):
+            keep = set(NEEDS[clause])
+            out = []
+            for c in s.pc:
+                t = tags.get(c.get_id())
+                if not z3.is_quantifier(c) or (t is not None and t in keep):
+                    out.append(c)  # (untagged quantified hypotheses define V over the UNSORTED list: unused after qsort)
+            return out
+
+        def post(s, wit, tag):
+            n = s.M['f:segment_count']
+            yield ('sorted_flag_set', s.M['f:segments_sorted'] != 0)
+            yield ('count_does_not_grow', z3.And(n >= 0, n <= n0))
+            yield ('ranges_are_disjoint_and_ordered', sm.disjoint(s))
+            yield ('ranges_well_formed', sm.WF(s))
+            yield ('every_range_is_inside_V', sm.H1(s))
+            yield ('every_word_of_V_is_in_a_range', z3.ForAll([x], z3.Implies(z3.Select(nm.V, x), z3.And(sm.idx(s, wit(x)), sm.inside(s, wit(x), x)))))
+
+        def inv(s):
+            last, i, g = s.vars['last'], s.vars['i'], s.ghost['g']
+            yield ('indices', z3.And(last >= 0, last < i, i <= n0, s.M['f:segment_count'] == n0))
+            p, q = z3.BitVec('p_es', 64), z3.BitVec('q_es', 64)
+            yield ('merged_prefix_is_disjoint_and_ordered', z3.ForAll([p, q], z3.Implies(z3.And(p >= 0, p < q, q <= last), z3.ULT(z3.Select(s.M['seg_end'], p), z3.Select(s.M['seg_start'], q)))))
+            yield ('merged_prefix_is_well_formed', z3.ForAll([p], z3.Implies(z3.And(p >= 0, p <= last), z3.ULE(z3.Select(s.M['seg_start'], p), z3.Select(s.M['seg_end'], p)))))
+            yield ('merged_prefix_is_inside_V', z3.ForAll([p, x], z3.Implies(z3.And(p >= 0, p <= last, sm.inside(s, p, x)), z3.Select(nm.V, x))))
+            yield ('rest_is_untouched', z3.ForAll([j], z3.Implies(z3.And(j >= i, j < n0), z3.And(z3.Select(s.M['seg_start'], j) == z3.Select(S0, j), z3.Select(s.M['seg_end'], j) == z3.Select(E0, j)))))
+            yield ('last_range_starts_before_the_rest', z3.ForAll([j], z3.Implies(z3.And(j >= i, j < n0), z3.ULE(z3.Select(s.M['seg_start'], last), z3.Select(S0, j)))))
+            yield ('processed_ranges_are_covered_by_the_prefix', z3.ForAll([j, x], z3.Implies(z3.And(j >= 0, j < i, in0(j, x)), z3.And(z3.Select(g, j) >= 0, z3.Select(g, j) <= last, sm.inside(s, z3.Select(g, j), x)))))
+
+        n_ret = 0
+        for i_, (s, where) in enumerate(ex.run(st, 0, stop={heads[0]})):
+            tag = f'{name}:before_loop.path{i_}'
+            if where[0] == 'return':
+                if s.ghost.get('qsorted'):
+                    # 0 or 1 entries: nothing to merge; witness of the sorted list
+                    for nm_, c in post(s, w0, tag):
+                        extra.append(Obl(f'{tag}.{nm_}', list(s.pc), c))
+                else:
+                    extra.append(Obl(f'{tag}.already_sorted_list_is_untouched', list(s.pc) + [st.M['f:segments_sorted'] != 0], z3.And(s.M['seg_start'] == st.M['seg_start'], s.M['seg_end'] == st.M['seg_end'], s.M['f:segment_count'] == n0)))
+                extra.append(Obl(f'{tag}.cover', list(s.pc), None, 'cover'))
+                n_ret += 1
+            else:
+                s.ghost['g'] = z3.Store(g_any, z3.BitVecVal(0, 64), z3.BitVecVal(0, 64))
+                for nm_, c in inv(s):
+                    extra.append(Obl(f'{name}:loop.invariant_holds_on_entry.{nm_}.path{i_}', list(s.pc), c))
+                ctx = s
+        sh = ctx.fork()
+        sh.vars['last'], sh.vars['i'] = z3.BitVec('last_any', 64), z3.BitVec('i_any', 64)
+        sh.M['seg_start'], sh.M['seg_end'] = z3.Array('seg_start_any', BV, BV), z3.Array('seg_end_any', BV, BV)
+        sh.ghost['g'] = g_any
+        for nm_, c in inv(sh):
+            sh.assume(c)
+            tags[c.get_id()] = nm_
+        extra.append(Obl(f'{name}:loop.cover.invariant_satisfiable', list(sh.pc), None, 'cover'))
+        i_h = sh.vars['i']
+        for i_, (s, where) in enumerate(ex.run(sh, heads[0], stop={heads[0]})):
+            tag = f'{name}:from_an_iteration.path{i_}'
+            if where[0] == 'return':
+                wit = lambda xx, s=s: z3.Select(g_any, w0(xx))
+                for nm_, c in post(s, wit, tag):
+                    extra.append(Obl(f'{tag}.{nm_}', hyps_for(s, 'post:' + nm_), c))
+                extra.append(Obl(f'{tag}.cover', list(s.pc), None, 'cover'))
+            else:
+                s.ghost['g'] = z3.Store(g_any, i_h, s.vars['last'])  # ghost update: entry i was merged into / became `last`
+                for nm_, c in inv(s):
+                    extra.append(Obl(f'{name}:loop.invariant_preserved.{nm_}.path{i_}', hyps_for(s, nm_), c))
+    else:
+        raise Undecided(f'unit_validity: no specification for {name}')
+    extra.append(Obl(f'{name}:canary', list(st.pc), None, 'canary'))
+    return finish_unit(_Unit(ex), extra)
+
+
 # ----------------------------------------------------------------------------- the run loops
 
 
